@@ -3,8 +3,8 @@
   regenerated from the sources on every run) applied to the layout of an all-zero buffer of `n` records is the layout
   of the model's initial state `init n cap` — the state every reachable state (`Tree.Reach`, `HSet.Reach`) starts from.
 -/
-import Stevia.Generated.Avl32
-import Stevia.Generated.Avl8
+import Stevia.Generated.Avl32Alloc
+import Stevia.Generated.Avl8Alloc
 import Stevia.Generated.HSet
 import Stevia.Proofs.TreeImpEq
 import Stevia.Proofs.HashSetImpEq
